@@ -429,8 +429,8 @@ func Main(args []string) int {
 		}
 	}
 	writeEvidence(prop, *tier, seed, ci, merged, len(unknown), time.Since(t0))
-	fmt.Printf("%s %s: states=%d transitions=%d executions=%d violations=%d(known %d) capped=%v wall=%.1fs\n", prop, *tier,
-		merged.Counters["states"], merged.Counters["transitions"], merged.Counters["executions"],
+	fmt.Printf("%s %s: states=%d transitions=%d executions=%d evaluations=%d violations=%d(known %d) capped=%v wall=%.1fs\n", prop, *tier,
+		merged.Counters["states"], merged.Counters["transitions"], merged.Counters["executions"], merged.Counters["evaluations"],
 		len(unknown), len(merged.Violations)-len(unknown), merged.Capped, time.Since(t0).Seconds())
 	return exit
 }
